@@ -58,3 +58,17 @@ add("C11",
     "DESIGN.md 5/C11", COMMON_TRUST + " Linalg.invert is run-time monitored (A4).",
     "contracts on the real functions; real code on symbolic control points over concrete knot-vector pairs, exact rational matrix identities against formally integrated Cox-de Boor pieces (bounded in shape)")
 ENGINE_S += ["C05", "C07", "C11"]
+
+add("C06",
+    "Contracts on Curve.degree_increase / degree setter / degree_decrease and the heavy elevation matrices: multiplicities and degree + t, C_new == C_old on "
+    "every span (symbolic points and weights), exactness; reduction of elevated input returns the original points; generic input refused (unchanged) or accepted "
+    "within tolerance (exact LDL^T); tolerance=None interpolates; Bezier elevation also with symbolic interval ends. " + S_NOTE,
+    "DESIGN.md 5/C06", COMMON_TRUST + " Linalg.invert is run-time monitored (A4).",
+    "contracts on the real functions; real code on symbolic control points / weights over concrete knot vectors (bounded in shape)")
+add("C13",
+    "Contract on BaseCurve.__eq__/__ne__: on every explored path the verdict is implied (z3, linear arithmetic over symbolic control points of both operands) to "
+    "equal 'max_i |A'_i - B'_i| <= 1e-9' on the spec-refined control points over the spec union vector; refined / elevated copies equal in both orders, "
+    "perturbed copies unequal, != is the negation, non-curves False, operands unmodified. " + S_NOTE,
+    "DESIGN.md 5/C13", COMMON_TRUST + " Linalg.invert is run-time monitored (A4).",
+    "contracts on the real functions; real code on symbolic control points over concrete knot-vector pairs, path-exhaustive, verdict-vs-spec implication by z3 linear arithmetic (bounded in shape)")
+ENGINE_S += ["C06", "C13"]
